@@ -66,6 +66,16 @@ def ev(t, env, memo=None):
         r = np.zeros_like(ev(t[1], env, memo))
     elif op == "eye":
         r = np.eye(ev(t[1], env, memo).shape[0])
+    elif op == "min":
+        r = ev(t[1], env, memo)
+        for u in t[2:]:
+            r = np.minimum(r, ev(u, env, memo))
+    elif op == "max":
+        r = ev(t[1], env, memo)
+        for u in t[2:]:
+            r = np.maximum(r, ev(u, env, memo))
+    elif op == "log":
+        r = np.log(ev(t[1], env, memo))
     elif op == "tan":
         r = np.tan(ev(t[1], env, memo))
     elif op == "exp":
@@ -270,6 +280,14 @@ def evm(t, env, mp, memo=None, idx=None):
         r = getattr(mp, op)(f(t[1]))
     elif op == "atan2":
         r = mp.atan2(f(t[1]), f(t[2]))
+    elif op == "min":
+        r = min(f(u) for u in t[1:])
+    elif op == "max":
+        r = max(f(u) for u in t[1:])
+    elif op == "sinc":                            # normalised: sin(pi x)/(pi x)
+        r = mp.sincpi(f(t[1]))
+    elif op == "besseli0":
+        r = mp.besseli(0, f(t[1]))
     elif op == "pow":
         r = f(t[1]) ** f(t[2])
     elif op == "inf":
